@@ -124,8 +124,9 @@ CLAIMS.update({
              "restart(true|false)/tick events - ticks that complete or time out, runs that complete or are cancelled at an arbitrary point, every lock outcome - the snapshot is "
              "consistent (SnapshotConsistent): its matches are exactly the items its pattern matches, with that pattern's scores, among a duplicate-free set of initialised items of "
              "its stream whose size is the reported item count, no item twice, ordered by (score desc, item length asc, index asc) with the items' true lengths (run_seen: every "
-             "index a completed run accounts for was observed as what the stream holds). Restriction: non-empty patterns (the empty pattern's run is C06_trivial_run_contract, not "
-             "composed). Building blocks: the snapshot is replaced only by the result of a finished, un-cancelled run while the matcher is Fresh, and always together with that run's "
+             "index a completed run accounts for was observed as what the stream holds). For the empty pattern (a run that takes reset_matches + process_new_items_trivial and cannot be cancelled; which pattern ids are empty is a parameter, with the "
+             "hypothesis EmpOk that the empty pattern gives every item score 0) the order clause is insertion order instead. The invariant also carries Pub: every index the worker "
+             "accounts for holds a published item of its stream. Building blocks: the snapshot is replaced only by the result of a finished, un-cancelled run while the matcher is Fresh, and always together with that run's "
              "stream handle and processed-item count; the in-flight indices are processed in ascending order whatever order the pool threads report them in (repair of F11, with the "
              "[5,3] regression decided in the model); placeholder entries sort behind real matches of equal score. The run contract is a theorem for the two kinds of run that rebuild the list from the "
              "worker's bookkeeping alone (companion file C06_RunContract): after a completed full-rescoring run - from ANY earlier state of the match list (left by completed, timed-out "
@@ -161,7 +162,8 @@ CLAIMS.update({
              "completing or cancelled anywhere, cleared runs after a restart - a tick that reports running = false leaves a snapshot holding exactly the current pattern's "
              "matches with their scores among the accounted items of the current stream, in the worker's order, and with nothing in flight that is the from-scratch result "
              "over all of them; the environment hypotheses say that a joined run is Worker.run on the pending status with observations consistent with the stream. "
-             "Restriction: non-empty patterns (the empty pattern takes process_new_items_trivial: C06_trivial_run_contract). "
+             "Runs for the empty pattern (reset_matches + process_new_items_trivial, never cancelled) are included: which pattern ids are empty is a parameter, under the hypothesis "
+             "EmpOk (the empty pattern gives every item score 0). "
              "Convergence is also checked end to end: every generated history is driven to quiescence "
              "and its snapshot compared with a fresh Nucleo fed the same items and final pattern (oracle independent of the model).",
         note=NU_NOTE),
